@@ -17,9 +17,9 @@ ID = 'C04'
 def plan(tier):
     """(L, layouts, role names, depth, structural)"""
     if tier == 'quick':
-        return [(2, ('esc', 'esc2'), 'RW', 1, False), (3, ('tri', 'trix', 'triw'), 'R', 0, False), (1, ('plain',), 'RBW', 2, True), (2, ('plain', 'rainbow'), 'RBWX', 2, True), (2, ('plain',), 'oq', 2, True),
+        return [(3, ('rs1s', 'rs2s', 'rs1c', 'rs2c'), 'RB', 0, False), (2, ('esc', 'esc2'), 'RW', 1, False), (3, ('tri', 'trix', 'triw'), 'R', 0, False), (1, ('plain',), 'RBW', 2, True), (2, ('plain', 'rainbow'), 'RBWX', 2, True), (2, ('plain',), 'oq', 2, True),
                 (3, ('plain', 'rainbow'), 'RBW', 2, True), (4, ('plain',), 'RW', 2, False), (3, ('parsed',), 'RW', 1, True), (3, ('plain',), 'egm', 2, False), (3, ('long',), 'RW', 2, False), (2, ('plain',), 'WN', 3, False), (2, ('plain',), 'RB', 3, False), (3, ('dup1', 'dup2'), 'RW', 1, False), (4, ('rs1', 'rs2'), 'RBW', 1, False), (2, ('wide', 'wide2'), 'RW', 1, False)]
-    return [(2, ('esc', 'esc2'), 'RW', 2, False), (3, ('esc',), 'RW', 1, True), (4, ('tri', 'trix', 'triw'), 'R', 0, False), (3, ('tri', 'trix', 'triw'), 'RW', 1, False), (1, ('plain',), 'RBWX', 3, True), (2, ('plain', 'rainbow'), 'RBWX', 3, True), (3, ('plain',), 'oqW', 2, True),
+    return [(4, ('rs1s', 'rs2s', 'rs1c', 'rs2c'), 'RBW', 1, False), (2, ('esc', 'esc2'), 'RW', 2, False), (3, ('esc',), 'RW', 1, True), (4, ('tri', 'trix', 'triw'), 'R', 0, False), (3, ('tri', 'trix', 'triw'), 'RW', 1, False), (1, ('plain',), 'RBWX', 3, True), (2, ('plain', 'rainbow'), 'RBWX', 3, True), (3, ('plain',), 'oqW', 2, True),
             (3, ('plain', 'rainbow'), 'RBW', 3, False), (3, ('plain',), 'RBWXNT', 2, True),
             (4, ('plain', 'rainbow'), 'RBW', 2, True), (5, ('plain',), 'RW', 2, True), (6, ('plain', 'rainbow'), 'RW', 2, False), (3, ('plain',), 'egmB', 2, True), (4, ('plain',), 'eg', 2, False), (3, ('long',), 'RBW', 2, False), (3, ('dup1', 'dup2'), 'RW', 1, False), (4, ('rs1', 'rs2'), 'RBW', 2, False), (2, ('wide', 'wide2'), 'RW', 2, False), (3, ('wide',), 'RW', 1, False)]
 
